@@ -64,6 +64,9 @@ PROGRAMS = {
     'disc_two_parents_meta': [Spec('t', 'Prior'), Spec('sim', 'Simulator', ['t'], observed=True),
                               Spec('s1', 'Summary', ['sim']), Spec('s2', 'Summary', ['sim']),
                               Spec('d', 'Discrepancy', ['s1', 's2'], uses_meta=True)],
+    'indep_priors': [Spec('b', 'Prior'), Spec('a', 'Prior'), Spec('c', 'Prior'), Spec('sim', 'Simulator', ['b', 'a', 'c'], observed=True)],
+    'fork_sims': [Spec('t', 'Prior'), Spec('y', 'Simulator', ['t'], observed=True), Spec('x', 'Simulator', ['t'], observed=True),
+                  Spec('s', 'Summary', ['x', 'y'])],
     # the same parent connected twice to one child (known finding: DiGraph keeps one edge per pair)
     'dup_parent': [Spec('a', 'Prior'), Spec('o', 'Operation', ['a', 'a'])],
     'dup_parent_named': [Spec('k', 'Constant'), Spec('a', 'Prior'), Spec('o', 'Operation', ['a', 'k'], {'w': 'k'})],
@@ -77,7 +80,10 @@ PROGRAMS = {
 class Built:
     """A program built on a real ElfiModel with recording operations."""
 
-    def __init__(self, ctx, specs, tag=''):
+    def __init__(self, ctx, specs, tag='', draw_counts=None, insertion=None):
+        self.draw_counts = draw_counts      # {stochastic node: number of generator draws per call} or None
+        self.drawlog = []                    # (node, generator object, positions) in execution order
+        self.insertion = insertion           # order in which nodes are added to the model (default: as listed)
         self.ctx = ctx
         self.specs = {s.name: s for s in specs}
         self.order = [s.name for s in specs]
@@ -105,6 +111,11 @@ class Built:
             if 'meta' in kw:
                 B.meta_seen[spec.name].append(kw['meta'])
             vals = list(args) + [kw[k] for k in sorted(spec.named) if k in kw]
+            if B.draw_counts is not None and 'random_state' in kw:
+                rs = kw['random_state']
+                pos0 = rs.pos
+                vals.extend(rs.take(B.draw_counts.get(spec.name, 1)))
+                B.drawlog.append((spec.name, rs, list(range(pos0, rs.pos))))
             if 'batch_size' in kw:
                 vals.append(kw['batch_size'])
             if 'observed' in kw:
@@ -116,6 +127,9 @@ class Built:
         ctx = self.ctx
         m = elfi.ElfiModel()
         ref = {}
+        if self.insertion:
+            byname = {s.name: s for s in specs}
+            specs = [byname[n] for n in self.insertion]
         for s in specs:
             parents = [ref[p] for p in s.pos]
             if s.kind == 'Constant':
